@@ -417,7 +417,9 @@ func (ex *Exec) walkVal(v Value, f func(*Loc), seen map[*Loc]bool) {
 		ex.walkMsg(x.L, f, seen)
 	case SliceV:
 		if x.Arr != nil {
-			for i := 0; i < x.Cap; i++ {
+			// only the visible elements: a later write into the spare capacity beyond len cannot be observed
+			// through the message that was handed out (and does not reproduce natively)
+			for i := 0; i < x.Len; i++ {
 				ex.walkMsg(x.Arr.Kids[x.Off+i], f, seen)
 			}
 		}
